@@ -274,3 +274,17 @@ prop("C16", "exploration",
      ["balances are read after a refresh of the account (the figures are relative to the account's confirmed height)",
       "mid-chain start heights are not judged for completeness"],
      required_hist=["restore:matches-chain-truth", "restore:second-scan-no-change", "repair:matches-chain-truth", "repair:second-scan-no-change", "restore:spendable-equals-original"])
+
+prop("C18", "exploration",
+     "a payment from wallet 0 to wallet 1 is mined (0-2 earlier and later blocks mined by the recipient, so that its coinbases can be orphaned) and confirmed; then "
+     "1-5 flip-flops: a fork is built block by block directly on the real chain from a point 0-3 blocks below the receiving block, one to two blocks longer "
+     "than the current branch, alternately without and with the payment; the recipient looks (refresh or scan) at a random block in the middle of the "
+     "reorganisation. Oracle from chain truth (kernel on the main chain? output in the UTXO set?): after a scan or full refresh of a branch without the kernel "
+     "the entry must be TxReverted/unconfirmed, its output neither Unspent nor Locked, not selected by init_send_tx with minimum_confirmations 0 or 1, orphaned "
+     "coinbases not counted, total not above the value held in the UTXO set, and a later ordinary refresh must not resurrect it; after a branch with the "
+     "payment an ordinary refresh must report it received, confirmed and Unspent. distinct = (revert/reconfirm, fork depth, fork length, mid-reorg look, "
+     "full-look kind); non-trivial = all",
+     [{"name": "c18", "cmd": "c18", "shards": {"quick": 14, "thorough": 16}, "crash_is_violation": True}],
+     {"quick": 120, "thorough": 1500},
+     ["forks are longer than the branch they replace (the wallet ignores a node whose height is below its confirmed height)"],
+     required_hist=["judged-reverted:scan", "judged-reverted:full-refresh", "judged-confirmed:refresh"])
